@@ -28,6 +28,7 @@ import (
 	"net/http"
 	"os"
 	"strconv"
+	"strings"
 	"sync"
 	"sync/atomic"
 	"time"
@@ -208,11 +209,22 @@ func (c *Cache) Exec(ctx context.Context, qCtx *query_context.Context, next sequ
 
 	err := next.ExecNext(ctx, qCtx)
 
-	if r := qCtx.R(); r != nil && cachedResp != r { // pointer compare. r is not cachedResp
+	if r := qCtx.R(); r != nil && cachedResp != r && answersQuestion(r, q) { // pointer compare. r is not cachedResp
 		saveRespToCache(msgKey, r, c.backend, c.args.LazyCacheTTL)
 		c.updatedKey.Add(1)
 	}
 	return err
+}
+
+// answersQuestion reports whether r can be stored under the key of q, that is,
+// r does not carry the question of another query. E.g. a response that was
+// set before a plugin (redirect) rewrote the question of q.
+func answersQuestion(r, q *dns.Msg) bool {
+	if len(r.Question) != 1 || len(q.Question) != 1 {
+		return true
+	}
+	rq, qq := r.Question[0], q.Question[0]
+	return rq.Qtype == qq.Qtype && rq.Qclass == qq.Qclass && strings.EqualFold(rq.Name, qq.Name)
 }
 
 // doLazyUpdate starts a new goroutine to execute next node and update the cache in the background.
